@@ -45,8 +45,9 @@ def reset_process_caches():
     import typing
 
     from adaptix._internal.code_tools import compiler
-    from adaptix._internal.type_tools import normalize_type as nt
+    import importlib
 
+    nt = importlib.import_module("adaptix._internal.type_tools.normalize_type")
     nt._cached_normalize.cache_clear()
     for cleanup in typing._cleanups:
         cleanup()
